@@ -188,7 +188,7 @@ def execute(scn, L):
             out.probe('model_rejects_but_serialised')
 
             try:
-                L.DiffX.from_bytes(data)
+                back = domworld.snap_tree(L.DiffX.from_bytes(data))
             except Exception as e:
                 out.violate('C05.own-output-rejected', 'unmodelled:%s:%s' % (
                     type(e).__name__, exc_summary(e, L)['func']),
@@ -196,6 +196,41 @@ def execute(scn, L):
                      'op': {k: v for k, v in op.items()
                             if k in ('op', 'encoding', 'line_endings')}})
                 return out
+
+            # ... with the content it had (a final line ending may have
+            # been added, nothing else)
+            def contents(s_):
+                yield s_['preamble']['content'], s_['meta']['content']
+
+                for c_ in s_['changes']:
+                    yield c_['preamble']['content'], c_['meta']['content']
+
+                    for f_ in c_['files']:
+                        yield f_['diff']['content'], f_['meta']['content']
+
+            def same_text(a_, b_):
+                if not a_ and not b_:
+                    return True
+
+                if type(a_) is not type(b_):
+                    return False
+
+                nls = ('\n', '\r\n') if isinstance(a_, str) else \
+                    (b'\n', b'\r\n')
+                return b_ == a_ or (isinstance(a_, (str, bytes)) and
+                                    b_.startswith(a_) and
+                                    b_[len(a_):] in nls) or \
+                    (isinstance(a_, bytes) and b_.startswith(a_) and
+                     len(b_) - len(a_) <= 8)
+
+            for (t0, m0), (t1, m1) in zip(contents(snap), contents(back)):
+                if not same_text(t0, t1) or not pipe.json_eq(m0 or {},
+                                                             m1 or {}):
+                    out.violate('C05.tree-differs', 'unmodelled:content',
+                                {'before': t0 if not same_text(t0, t1)
+                                 else m0, 'after': t1
+                                 if not same_text(t0, t1) else m1})
+                    return out
 
             out.discarded = 'model-rejects-but-serialised'
             return out
